@@ -1150,6 +1150,57 @@ def setup():
     make_ccd.use()
 
 
+# --------------------------------------------------------------------------
+# large point sets (size dependent code paths): domain movement in the tail atoms
+# --------------------------------------------------------------------------
+def st_fit_large(tier):
+    sizes = [4097, 4500, 6000, 8193, 9000, 3000, 12289]
+    if tier == "thorough":
+        sizes += [16385, 20000, 40000]
+    return st.fixed_dictionaries(
+        {
+            "n": st.sampled_from(sizes),
+            "seed": st.integers(0, 2**32 - 1),
+            "tail": st.sampled_from([0.05, 0.2, 0.4]),
+            "shift": st.sampled_from([0.0, 5.0, 20.0]),
+            "container": st.sampled_from(["f4", "atoms"]),
+        }
+    )
+
+
+def run_fit_large(case):
+    import biotite.structure as struc
+
+    o = Outcome()
+    rng = np.random.default_rng(case["seed"])
+    n = case["n"]
+    X = rng.normal(size=(n, 3)) * np.array([30.0, 20.0, 10.0])
+    R = rot_axis_angle(rng.normal(size=3), float(rng.uniform(0.2, 3.0)))
+    M = X @ R.T + rng.normal(size=3) * 50.0
+    t = int(n * case["tail"])
+    # the last t atoms form a "domain" that moved rigidly relative to the rest
+    R2 = rot_axis_angle(rng.normal(size=3), 0.6)
+    M[n - t :] = (M[n - t :] - M[n - t :].mean(axis=0)) @ R2.T + M[n - t :].mean(axis=0) + case["shift"]
+    F32 = X.astype(np.float32)
+    M32 = M.astype(np.float32)
+    fixed = to_container(F32.astype(np.float64), case["container"])
+    mobile = to_container(M32.astype(np.float64), case["container"])
+    fitted, tr = struc.superimpose(fixed, mobile)
+    ref = kabsch64(F32.astype(np.float64), M32.astype(np.float64))
+    got = rmsd64(coords64(fitted), F32.astype(np.float64))
+    o.label(f"n>{4096 * (n // 4096)}" if n > 4096 else "n<=4096", f"tail={case['tail']}", f"shift={case['shift']}")
+    rot = np.asarray(tr.rotation, dtype=np.float64).reshape(3, 3)
+    o.check(abs(np.linalg.det(rot) - 1.0) < 1e-4 and np.allclose(rot @ rot.T, np.eye(3), atol=1e-4), "rotation_det_plus_one", f"rotation {rot.tolist()}")
+    # float32 accumulation over n atoms: relative tolerance 1e-3 on an RMSD of several Angstrom
+    o.check(
+        got <= ref["rmsd"] * (1 + 1e-3) + 1e-3,
+        "rmsd_minimal",
+        lambda: f"n={n}: RMSD after superimpose {got:.6f}, float64 Kabsch optimum {ref['rmsd']:.6f}",
+    )
+    o.mark_nontrivial(ref["rmsd"] > 0.5)
+    return o
+
+
 SUBS = [
     Sub(
         "fit",
@@ -1159,6 +1210,15 @@ SUBS = [
         thorough=160000,
         rule=">= 4 masked atoms of rank 3 with noise (optimality) or >= 2 atoms of rank < 3 (degenerate class)",
         clauses="proper rotation; rmsd minimal (float64 Kabsch + 200 perturbations); exact copy -> 0; apply == matrix == fitted; rmsd()",
+    ),
+    Sub(
+        "fit_large",
+        st_fit_large,
+        run_fit_large,
+        quick=48,
+        thorough=1200,
+        rule="3000..12289 atoms (thorough: up to 40000) with a rigidly displaced tail domain, optimum RMSD > 0.5",
+        clauses="rmsd minimal and proper rotation for large atom counts (size dependent code paths)",
     ),
     Sub(
         "stacks",
